@@ -18,6 +18,7 @@ RULE = ("Hypothesis: original (well-formed, 2 channels, any construction route /
         "op list the untouched side's canonical content read through BOTH views on a replica is unchanged, its two raw views "
         "still agree, and no message object is shared between the two sides. Non-trivial: the op lists contain an operation "
         "that mutates message objects in place (transpose, set_channel, scale, iterator edits). Distinct by case digest.")
+RULE = RULE + " Rounds e-g: capacities ending on the final tick with a non-note event there, empty capacity lists, INTERNAL markers among the ops, bars edited before they are copied."
 ASSUMPTIONS = ["an operation that raises on one side ends that side's op list; the other side is still compared"]
 TIERS = {"quick": dict(shards=8, examples=500, alt_ppqn=[480], alt_shards=2),
          "thorough": dict(shards=16, examples=6000, alt_ppqn=[480, 7, 1000], alt_shards=2)}
@@ -52,6 +53,10 @@ def _case(draw):
     return {"route": route, "srcs": srcs, "caps": draw(st.lists(st.integers(1, 80), min_size=0, max_size=3)),
             # capacities as given, or re-cut so that they end exactly on the source's final tick
             "caps_mode": draw(st.sampled_from(["given", "to_end", "to_end"])),
+            # bar / track / composition routes: the bar was edited after its creation and before it is copied (edits that keep it
+            # a valid bar, and edits after which the constructor's checks no longer pass: then copy() either refuses or must
+            # still return an independent value)
+            "pre_edit": draw(st.sampled_from([None, None, None, "pad_over", "scale2", "extra_ts", "transpose1"])),
             "requant": draw(st.booleans()), "key": draw(st.one_of(st.none(), st.sampled_from(gens.KEYS))),
             "first": draw(st.sampled_from(["derived", "original"])),
             "ops1": draw(st.lists(ops.op_strategy(ops.MUTATOR_OPS), min_size=1, max_size=4)),
@@ -132,6 +137,21 @@ def check(case):
             originals, derived = srcs, [b.sequence for bars in tb for b in bars]
         else:
             tb = Sequence.sequences_split_bars([s.copy() for s in srcs], 0, quantise_note_lengths=case["requant"])
+            pre = case.get("pre_edit")
+            if pre:
+                out.label("edited-before-copy:" + pre)
+                s0 = tb[0][0].sequence
+                if pre == "pad_over":
+                    s0.pad(O.seq_events(s0)[1] + 24 * 5)
+                elif pre == "scale2":
+                    s0.scale(2, quantise_afterwards=False)
+                elif pre == "extra_ts":
+                    from pbt.sut import Message, MT
+                    s0.add_absolute_message(Message(message_type=MT.TIME_SIGNATURE, numerator=5, denominator=8, time=3))
+                elif pre == "set_channel":
+                    s0.set_channel(5)
+                else:
+                    s0.transpose(1)
             if route == "bar_copy":
                 bar = tb[0][0]
                 bar.key_signature = Key(case["key"]) if case["key"] else None
@@ -156,6 +176,10 @@ def check(case):
     except Exception as e:
         out.inconclusive = f"derivation-raised:{route}:{type(e).__name__}"
         return out
+    if case.get("pre_edit") and route in ("bar_copy", "track_copy", "composition_copy"):
+        # the copy is re-built by the Bar constructor (re-normalised, re-padded: a wrapping transposition re-quantises note lengths and
+        # leaves the bar short); only independence is claimed for an edited bar
+        equal_expected = None
     try:
         snap_o, err = _snapshot(originals)
         snap_d, err2 = _snapshot(derived)
